@@ -26,6 +26,14 @@ def tokenize(text):
         if ch in " \t\n":
             i += 1
             continue
+        if ch.isdigit() or (ch in "+-" and i + 1 < len(text) and text[i + 1].isdigit()) or (ch == "." and i + 1 < len(text) and text[i + 1].isdigit()):
+            j = i + 1
+            while j < len(text) and (text[j].isalnum() or text[j] == "."):
+                j += 1
+            lit = text[i:j]
+            toks.append(("num", repr(float(lit)) if ("." in lit and not lit.lower().startswith(("0x", "+0x", "-0x"))) else repr(int(lit, 0) if lit.lower().lstrip("+-").startswith("0x") else (int(lit.lstrip("+-"), 8) * (-1 if lit[0] == "-" else 1) if len(lit.lstrip("+-")) > 1 and lit.lstrip("+-")[0] == "0" else int(lit)))))
+            i = j
+            continue
         if ch.isalpha() or ch == "_":
             j = i
             while j < len(text) and (text[j].isalnum() or text[j] == "_"):
@@ -59,7 +67,7 @@ def ref_parse(text):
             assert peek() == ("op", ")"), text
             pos[0] += 1
             return e
-        assert t[0] == "id", (text, t)
+        assert t[0] in ("id", "num"), (text, t)
         return t[1]
 
     def expr(minp):
@@ -92,6 +100,8 @@ def real_tree(node):
         return (op.OpToStr(node.GetOperation()), real_tree(node.GetLeft()), real_tree(node.GetRight()))
     if isinstance(node, ast.PrimaryExpression):
         return node.GetName()
+    if isinstance(node, ast.LiteralExpression):
+        return repr(node.GetValue())
     return f"<{type(node).__name__}>"
 
 
@@ -203,6 +213,14 @@ def w_tree(job):
             texts = layout_texts(ops, 2)
         elif mode == "layoutfull":
             texts = list(full_layouts(ops))
+        elif mode == "literal":
+            # one operand position holds a literal (signed, unsigned, fractional, hexadecimal, octal); a binary operator is always
+            # followed by a blank, so that the sign is the literal's
+            texts = []
+            for k in range(n + 1):
+                for lit_ in ("-7", "+7", "7", "2.5", "0x10", "017", "0"):
+                    names = [lit_ if i == k else NAMES[i] for i in range(n + 1)]
+                    texts.append(" ".join(x for i, o in enumerate(ops) for x in (names[i], o)) + " " + names[n])
         elif mode == "assign":
             base = " ".join(x for i, o in enumerate(ops) for x in (NAMES[i], o)) + " " + NAMES[n]
             texts = [f"t {aop} {base}" for aop in ("=", "+=", "-=", "*=", "/=")]
@@ -388,6 +406,9 @@ def run(tier, seed):
             jobs.append((w_tree, (n, lo, hi, "assign")))
     for lo, hi in _slices(13 ** 4, 7200):
         jobs.append((w_tree, (4, lo, hi, "plain")))
+    for n, step in ((1, 13), (2, 43), (3, 550)):
+        for lo, hi in _slices(13 ** n, step):
+            jobs.append((w_tree, (n, lo, hi, "literal")))
     if thorough:
         for lo, hi in _slices(13 ** 4, 1800):
             jobs.append((w_tree, (4, lo, hi, "paren")))
@@ -455,7 +476,7 @@ def run(tier, seed):
         "failing_cases_per_key": counts,
     }
     return {"level": LEVEL, "coverage": cov, "failures": uniq,
-            "assumptions": ["operands are identifiers (signed literals are one token by the lexer; C13's concern)",
+            "assumptions": ["operands are identifiers, or (mode literal) one literal per expression; a sign directly in front of digits is part of the literal, as the lexer has it",
                             "expressions with more than four operators are not enumerated"]}
 
 
